@@ -25,7 +25,7 @@ from .core import DEFAULT_ROOT, VERIF
 
 
 # whole-tree behaviour-preserving transformations (tools/benign_rename.py, benign_transform.py)
-WHOLE_TREE = ("rename-locals", "invert-if", "add-logging", "pass-stmts", "nest-and", "expand-aug", "rename-private")
+WHOLE_TREE = ("rename-locals", "invert-if", "add-logging", "pass-stmts", "nest-and", "expand-aug", "rename-private", "annotate")
 
 
 def _load_mutants():
